@@ -2257,3 +2257,137 @@ func init() {
 }
 
 var pendingDecided = map[string]string{}
+
+// ---------------------------------------------------------------------------------------------------------------------
+
+func init() {
+	reg(&Rule{ID: "R-C16-staletop", Props: []string{"C16", "C08"}, Floor: 1,
+		Doc: "a local copy of the top element of a value-typed stack (x := s[len(s)-1]) is not read after the stack or its top element has been reassigned on some path from the copy: hand-written state machines (the --stream decoder) push states between reads",
+		Run: ruleStaleTop})
+}
+
+func ruleStaleTop(c *Ctx, r *Rep) {
+	n := 0
+	for _, p := range []*packages.Package{c.Cli, c.Gojq} {
+		info := p.TypesInfo
+		for _, fd := range c.Decls(p) {
+			if fd.Body == nil || strings.HasSuffix(c.Fset.Position(fd.Pos()).Filename, "parser.go") {
+				continue
+			}
+			// candidates: x := S[len(S)-1] with a basic element type
+			type cand struct {
+				obj   types.Object
+				stack string // source text of S
+				def   *ast.AssignStmt
+			}
+			var cands []cand
+			ast.Inspect(fd.Body, func(q ast.Node) bool {
+				as, ok := q.(*ast.AssignStmt)
+				if !ok || len(as.Lhs) != 1 || len(as.Rhs) != 1 || as.Tok != token.DEFINE {
+					return true
+				}
+				ix, ok := unparen(as.Rhs[0]).(*ast.IndexExpr)
+				if !ok {
+					return true
+				}
+				st, ok := info.TypeOf(ix.X).Underlying().(*types.Slice)
+				if !ok {
+					return true
+				}
+				if _, basic := st.Elem().Underlying().(*types.Basic); !basic {
+					return true
+				}
+				if c.Src(ix.Index) != "len("+c.Src(ix.X)+")-1" && c.Src(ix.Index) != "len("+c.Src(ix.X)+") - 1" {
+					return true
+				}
+				if id, ok := as.Lhs[0].(*ast.Ident); ok && id.Name != "_" {
+					cands = append(cands, cand{info.Defs[id], c.Src(ix.X), as})
+				}
+				return true
+			})
+			if len(cands) == 0 {
+				continue
+			}
+			g := cfg.New(fd.Body, func(*ast.CallExpr) bool { return true })
+			for _, cd := range cands {
+				n++
+				mutates := func(nd ast.Node) bool {
+					found := false
+					ast.Inspect(nd, func(q ast.Node) bool {
+						if as, ok := q.(*ast.AssignStmt); ok && as != cd.def {
+							for _, l := range as.Lhs {
+								ls := c.Src(l)
+								if ls == cd.stack || strings.HasPrefix(ls, cd.stack+"[") {
+									found = true
+								}
+							}
+						}
+						return !found
+					})
+					return found
+				}
+				uses := func(nd ast.Node) *ast.Ident {
+					var hit *ast.Ident
+					ast.Inspect(nd, func(q ast.Node) bool {
+						if id, ok := q.(*ast.Ident); ok && info.Uses[id] == cd.obj && hit == nil {
+							hit = id
+						}
+						return hit == nil
+					})
+					return hit
+				}
+				// forward from the definition: state 0 = fresh, 1 = stack mutated since the copy
+				type key struct {
+					b  *cfg.Block
+					st int
+				}
+				var start *cfg.Block
+				startIdx := 0
+				for _, b := range g.Blocks {
+					for i, nd := range b.Nodes {
+						if nd == ast.Node(cd.def) {
+							start, startIdx = b, i+1
+						}
+					}
+				}
+				if start == nil {
+					continue
+				}
+				var bad *ast.Ident
+				seen := map[key]bool{}
+				var walk func(b *cfg.Block, from, st int)
+				walk = func(b *cfg.Block, from, st int) {
+					for _, nd := range b.Nodes[from:] {
+						if nd == ast.Node(cd.def) {
+							return // redefined: a fresh copy
+						}
+						if st == 1 && bad == nil {
+							if id := uses(nd); id != nil {
+								bad = id
+							}
+						}
+						if mutates(nd) {
+							st = 1
+						}
+					}
+					for _, s := range b.Succs {
+						if !seen[key{s, st}] {
+							seen[key{s, st}] = true
+							walk(s, 0, st)
+						}
+					}
+				}
+				walk(start, startIdx, 0)
+				k := fmt.Sprintf("top:%s:%s", declKey(fd), cd.obj.Name())
+				if bad != nil {
+					r.Bad(k, bad.Pos(), "%s reads %s, a copy of the top of %s taken at %s, after %s was reassigned on some path: the copy is stale (a --stream document cut right after an opening bracket would be judged by the state that was on top when the call started)", declKey(fd), cd.obj.Name(), cd.stack, c.Pos(cd.def.Pos()), cd.stack)
+				} else {
+					r.OK(k, cd.def.Pos(), "%s: the copy %s of the top of %s is never read after %s changes", declKey(fd), cd.obj.Name(), cd.stack, cd.stack)
+				}
+			}
+		}
+	}
+	if n == 0 {
+		r.OK("census", token.NoPos, "no local copy of the top of a value-typed stack in packages cli and gojq")
+	}
+}
